@@ -19,28 +19,24 @@ META = dict(
 )
 
 MARK = '"\\u0001C13 "'
-PRELUDE = ('def _c13r(f): try (f | try (tojson | "R") catch "r") catch '
+# every output is printed the way the fq command line prints an output (display_implicit: bounded for binaries and
+# decode values), then counted; an error is caught and its message kept
+PRELUDE = ('def _c13r(f): try (f | ((try display_implicit({}) catch empty) | empty), "R") catch '
            '("E" + (if type == "string" then .[0:80] else ((tojson? // type) | .[0:80]) end)); ')
 
 # process enders / terminal readers: the documented outcome is an exit status (or end of the fq main loop), not a fault
 EXIT_BY_DESIGN = {
     'halt': 'gojq halt: fq exits with status 0',
     'halt_error': 'halt_error/0,1: fq prints the value on stderr and exits with the given status (default 5)',
-    'input': 'input at end of input / on an undecodable stdin: error reported on stderr, exit status 4 at the end',
+    'input': 'input with nothing left to read (-n, empty stdin): the failure is reported on stderr and fq exits with status 4',
     'inputs': 'same as input',
-    'repl': '... | repl: reads expressions from the terminal until EOF, then the fq main loop ends (status 0)',
-    '_repl': 'internal repl loop, same as repl',
-    '_main': 'the command line entry point: parses (virtual) arguments and may exit with a usage status',
-    '_readline': 'reads a line from the terminal; virtual terminal answers EOF',
-    '_cli_eval_on_expr_error': 'CLI error callback: records exit status',
-    '_cli_eval_on_error': 'CLI error callback: ends with _fatal_error (halt_error)',
-    '_cli_repl_error': 'CLI error callback: ends with halt_error',
+    'repl': 'fq -i ... | repl: reads expressions from the (virtual) terminal until EOF, then the fq main loop ends',
 }
 
 TIERS = dict(
     quick=dict(full=('go', 'public', 'cli'), workers=12, mem_kb=4194304, per_call=20,
-               grid={'go': (6, 4, 3), 'public': (6, 4, 3), 'cli': (6, 4, 3), 'internal': (3, 3, 2), 'generated': (3, 3, 2)},
-               frac={'internal': 0.4, 'generated': 0.25}, generated_names=16, opt_budget=1500, pairs=False),
+               grid={'go': (6, 4, 3), 'public': (6, 4, 3), 'cli': (6, 4, 3), 'internal': (3, 2, 2), 'generated': (3, 2, 2)},
+               frac={'internal': 0.3, 'generated': 0.2}, generated_names=12, opt_budget=1000, pairs=False),
     thorough=dict(full=('go', 'public', 'cli', 'internal', 'generated'), workers=12, mem_kb=4194304, per_call=20,
                   grid={'go': (6, 6, 4), 'public': (6, 6, 4), 'cli': (6, 6, 4), 'internal': (6, 4, 3), 'generated': (6, 4, 3)},
                   frac={}, generated_names=None, opt_budget=40000, pairs=True),
@@ -155,7 +151,7 @@ class Runner:
             fn = fns[c['f'] - 1]
             ev = dict(f=c['f'], fn=fn['fn'], arity=fn['arity'], pos=c['pos'], vals=list(c['vals']), outcome=r['outcome'],
                       msg=r['msg'][:160] if r['outcome'] in ('results', 'error', 'mixed', 'exit') else r['msg'][:6000],
-                      arm=name, variant=c.get('variant', ''))
+                      arm=c.get('arm', name), variant=c.get('variant', ''), ms=r['ms'])
             ev['_expr'] = job['expr']
             ev['_job'] = job
             ev['_stalls'] = r.get('stalls', 0)
@@ -316,66 +312,51 @@ def run(ctx):
     null_id = pool[0]['id']
 
     # ---- 3. phase B: every position x required pool value, the other positions at the accepted benign context
+    def context(f):
+        return best.get(f['i'], (0, [null_id] * (f['arity'] + 1)))[1]
     calls = []
     for f in active:
-        ctxv = best.get(f['i'], (0, [null_id] * (f['arity'] + 1)))[1]
+        ctxv = context(f)
         for p in range(f['arity'] + 1):
             for v in f['req']:
                 if p == 0 and not pool[v - 1]['inp']:
                     continue
                 vals = list(ctxv)
                 vals[p] = v
-                calls.append(dict(f=f['i'], pos=p, vals=vals))
-            # the benign values themselves, in case the grid was smaller than the benign set
-            for v in benign:
-                vals = list(ctxv)
-                vals[p] = v
-                calls.append(dict(f=f['i'], pos=p, vals=vals))
-    evB = R.run(calls, pool, fns, 'sweep')
+                calls.append(dict(f=f['i'], pos=p, vals=vals, arm='sweep'))
 
-    # ---- 4. option arm: single-member option objects at argument positions that take objects
-    accepts_obj = collections.defaultdict(lambda: [False, False])   # (f, p) -> [object accepted, some non-object refused]
-    for ev in evA + evB:
+    # ---- 4. option arm: single-member option objects at argument positions that take objects: every argument of a
+    # Go function, and jq-defined arguments where the grid saw an object accepted and a non-object refused
+    objs = {p['id'] for p in pool if p['name'].startswith(('obj_', 'opt_'))}
+    acc = collections.defaultdict(lambda: [False, False])
+    for ev in evA:
+        ok = ev['outcome'] in ('results', 'mixed')
         for p, v in enumerate(ev['vals']):
-            if p == 0:
-                continue
-            isobj = pool[v - 1]['name'].startswith(('obj_', 'opt_'))
-            ok = ev['outcome'] in ('results', 'mixed')
-            if isobj and ok:
-                accepts_obj[(ev['f'], p)][0] = True
-            if not isobj and not ok and ev['pos'] == p:
-                accepts_obj[(ev['f'], p)][1] = True
-    optpos = []
-    for f in active:
-        for p in range(1, f['arity'] + 1):
-            a = accepts_obj[(f['i'], p)]
-            if f['cls'] == 'go' or (a[0] and a[1]):
-                optpos.append((f, p))
+            if p and v in objs and ok:
+                acc[(ev['f'], p)][0] = True
+            if p and v not in objs and not ok and all(w in objs for q, w in enumerate(ev['vals']) if q and q != p):
+                acc[(ev['f'], p)][1] = True
+    optpos = [(f, p) for f in active for p in range(1, f['arity'] + 1) if f['cls'] == 'go' or all(acc[(f['i'], p)])]
     ext = [p['id'] for p in pool if not p['base']]
-    calls = []
+    ocalls = []
     for f, p in optpos:
-        ctxv = best.get(f['i'], (0, [null_id] * (f['arity'] + 1)))[1]
         for v in ext:
-            vals = list(ctxv)
+            vals = list(context(f))
             vals[p] = v
-            calls.append(dict(f=f['i'], pos=p, vals=vals))
+            ocalls.append(dict(f=f['i'], pos=p, vals=vals, arm='options'))
     stride = 1
-    if len(calls) > cfg['opt_budget']:
-        stride = -(-len(calls) // cfg['opt_budget'])
-        off = rng.randrange(stride)
-        calls = calls[off::stride]
-    ctx.cov['option_arm'] = dict(positions=len(optpos), calls=len(calls), stride=stride)
-    evO = R.run(calls, pool, fns, 'options') if calls else []
+    if len(ocalls) > cfg['opt_budget']:
+        stride = -(-len(ocalls) // cfg['opt_budget'])
+        ocalls = ocalls[rng.randrange(stride)::stride]
+    ctx.cov['option_arm'] = dict(positions=len(optpos), calls=len(ocalls), stride=stride)
+    calls += ocalls
 
     # ---- 5. thorough: all pairs over the pair pool for arity <= 2 (others benign)
-    evP = []
     if cfg['pairs']:
         pp = [p['id'] for p in pool if p['pair']]
-        calls = []
         for f in active:
             if not f['pairs']:
                 continue
-            ctxv = best.get(f['i'], (0, [null_id] * (f['arity'] + 1)))[1]
             n = f['arity'] + 1
             for p in range(n):
                 for q in range(p + 1, n):
@@ -383,14 +364,13 @@ def run(ctx):
                         if p == 0 and not pool[v - 1]['inp']:
                             continue
                         for w in pp:
-                            vals = list(ctxv)
+                            vals = list(context(f))
                             vals[p], vals[q] = v, w
-                            calls.append(dict(f=f['i'], pos=-1, vals=vals))
-        evP = R.run(calls, pool, fns, 'pairs')
-        ctx.cov['pairs_arm'] = dict(pair_pool=len(pp), calls=len(evP), stride_note='pairs over the %d-value pair pool, not the full %d-value pool' % (len(pp), len(base_ids)))
+                            calls.append(dict(f=f['i'], pos=-1, vals=vals, arm='pairs'))
+        ctx.cov['pairs_arm'] = dict(pair_pool=len(pp), stride_note='pairs over the %d-value pair pool, not the full %d-value pool' % (len(pp), len(base_ids)))
 
-    # ---- 6. terminal arm: the functions that talk to the terminal / end the process, as whole programs on a virtual terminal
-    calls = []
+    # ---- 6. terminal arm: functions that talk to the terminal / end the process, on a virtual terminal; repl as a whole
+    # interactive session (fq -i) whose scripted user types `. | repl(OPTS)`
     byname = {(f['fn'], f['arity']): f for f in fns}
     inputs = [p for p in pool if p['base'] and p['name'] in ('null', 'one', 'str_a', 'arr_plain', 'obj_plain', 'dv_struct', 'bin_unaligned', 'nan', 'str_64k')]
     optsv = [p for p in pool if p['base'] and p['name'].startswith(('obj_', 'opt_', 'null', 'one', 'str_a'))]
@@ -398,25 +378,25 @@ def run(ctx):
         f = byname[('repl', 0)]
         for x in inputs:
             for tty in (True, False):
-                calls.append(dict(f=f['i'], pos=0, vals=[x['id']], variant='prog-tty%d' % tty,
-                                  job=dict(expr='%s | repl' % x['expr'], tty=tty, lines=['.', '1+', 'tojson | repl', '.a', 'display', ''])))
+                calls.append(dict(f=f['i'], pos=0, vals=[x['id']], variant='session-tty%d' % tty, arm='terminal',
+                                  job=dict(expr=x['expr'], repl=True, tty=tty, lines=['.', '1+', 'tojson | repl', '.a', 'display', '', '^D'])))
     if ('repl', 1) in byname:
         f = byname[('repl', 1)]
         for o in optsv:
-            calls.append(dict(f=f['i'], pos=1, vals=[pool[0]['id'], o['id']], variant='prog-tty1',
-                              job=dict(expr='null | repl(%s)' % o['expr'], tty=True, lines=['.', 'error("x")', '[1,2,3] | repl', '.[0]'])))
+            calls.append(dict(f=f['i'], pos=1, vals=[pool[0]['id'], o['id']], variant='session-tty1', arm='terminal',
+                              job=dict(expr='[1, {a: "b"}]', repl=True, tty=True, lines=['. | repl(%s)' % o['expr'], '.', 'error("x")', '.[1] | repl', '.a'])))
     for name in ('_readline', 'stdin_tty', 'stdout_tty', '_stdio_info', 'history', 'paste', '_repl', 'input', 'inputs', '_prompt', '_complete'):
         for ar in (0, 1, 2):
             f = byname.get((name, ar))
-            if not f:
+            if not f or not f['req']:
                 continue
             for vals in product([x['id'] for x in inputs[:5]], ar + 1):
-                calls.append(dict(f=f['i'], pos=-1, vals=vals, variant='tty1',
+                calls.append(dict(f=f['i'], pos=-1, vals=vals, variant='tty1', arm='terminal',
                                   job=dict(expr=R.expr(f, vals, pool), tty=True, stdin='[1,2]\n"x"\n', lines=['.', '.a'])))
-    evT = R.run(calls, pool, fns, 'terminal')
+    evB = R.run(calls, pool, fns, 'sweep')
 
     events = R.events
-    ctx.cov['calls'] = dict(grid=len(evA), sweep=len(evB), options=len(evO), pairs=len(evP), terminal=len(evT), total=len(events))
+    ctx.cov['calls'] = dict(collections.Counter(e['arm'] for e in events), total=len(events))
     ctx.cov['evaluations'] += len(events)
     ctx.cov['outcomes'] = dict(collections.Counter(e['outcome'] for e in events))
     ctx.cov['stalled_then_completed_on_rerun'] = sum(1 for e in events if e['outcome'] != 'hang' and e['_stalls'])
@@ -463,7 +443,9 @@ def run(ctx):
         ctx.finding(s, '%s/%d with values %s (position %d varied): %s: %s' % (ev['fn'], ev['arity'], vals, ev['pos'], ev['outcome'], first),
                     dict(expr=ev['_expr'], job=ev['_job'], values=vals, outcome=ev['outcome'], msg=ev['msg'][:3000]))
     ctx.cov['faults_by_signature'] = dict(nfault)
-    for e in (evB[len(evB) // 3:len(evB) // 3 + 2] + evO[:1] + evT[:1] + [events[l - 1] for l, _ in rej[:2]]):
+    evO = [e for e in evB if e['arm'] == 'options']
+    evT = [e for e in evB if e['arm'] == 'terminal']
+    for e in (evB[len(evB) // 5:len(evB) // 5 + 2] + evO[:1] + evT[:1] + [events[l - 1] for l, _ in rej[:2]]):
         ctx.sample(dict(fn='%s/%d' % (e['fn'], e['arity']), position=e['pos'], values=[pool[v - 1]['name'] for v in e['vals']],
                         outcome=e['outcome'], msg=e['msg'][:100], program=e['_expr'][len(PRELUDE):][:300]))
 
@@ -501,18 +483,31 @@ def binding_demo(ctx, events, fns, pool, cfg, cfgt, extra, rejected_lines):
             'POSTCONDITION CoveredDemo\nCHECK_DEADLOCK FALSE\n')
     ctx.binding_demo('TraceOutcome', 'TraceOutcome_demo.cfg', bad, [2, 5], name='outcome_demo', cfg_text=dcfg,
                      extra_files={'c13_fns.ndjson': dinv, 'c13_pool.ndjson': extra['c13_pool.ndjson']})
-    # (b) drop every event of one function from the REAL trace: the coverage postcondition must fail, naming a missing obligation
-    victim = next(f for f in fns if f['cls'] == 'go' and f['arity'] == 2)
-    kept = [tla_event(e) for e in events if e['f'] != victim['i']]
+    # (b) the Go-registered part of the REAL inventory and trace, with every event of one function dropped: the coverage
+    # postcondition must fail and name a missing obligation of that function
+    gof = [f for f in fns if f['cls'] == 'go']
+    remap = {f['i']: k + 1 for k, f in enumerate(gof)}
+    victim = next(f for f in gof if f['arity'] == 2)
+    kept, nall = [], 0
+    for e in events:
+        if e['f'] in remap:
+            nall += 1
+            if e['f'] != victim['i']:
+                t = tla_event(e)
+                t['f'] = remap[e['f']]
+                kept.append(t)
     dp = os.path.join(ctx.build, 'c13_dropped.ndjson')
     vlib.write_ndjson(dp, kept)
-    files = dict(extra)
-    files['trace.ndjson'] = dp
-    r = ctx.tlc('TraceOutcome', 'TraceOutcome_drop.cfg', cfg_text=cfgt, files=files, workers=1, name='outcome_drop', count=False, timeout=1500, heap='8g')
+    gp = os.path.join(ctx.build, 'c13_go_fns.ndjson')
+    vlib.write_ndjson(gp, [dict(fn=f['fn'], arity=f['arity'], cls=f['cls'], req=f['req'], exit=f['exit'], pairs=False) for f in gof])
+    files = {'trace.ndjson': dp, 'c13_fns.ndjson': gp, 'c13_pool.ndjson': extra['c13_pool.ndjson']}
+    gcfg = ('SPECIFICATION TSpec\nCONSTANTS FullClasses = {"go"}\n WantPairs = FALSE\n MinGo = 40\n MinPublic = 0\n MinInternal = 0\n MinGenerated = 0\n'
+            'POSTCONDITION CoveredDemo\nCHECK_DEADLOCK FALSE\n')
+    r = ctx.tlc('TraceOutcome', 'TraceOutcome_drop.cfg', cfg_text=gcfg, files=files, workers=1, name='outcome_drop', count=False, timeout=900)
     missing = [l for l in r.raw_printed if 'MISSING-SINGLE' in l]
-    ok = bool(r.postcondition_false and missing)
+    ok = bool(r.postcondition_false and missing and ('<<%d,' % remap[victim['i']]) in missing[0].replace(' ', ''))
     ctx.cov['binding_demo'].append(dict(spec='TraceOutcome', dropped_function='%s/%d' % (victim['fn'], victim['arity']),
-                                        events_removed=len(events) - len(kept), postcondition_failed=bool(r.postcondition_false),
+                                        events_removed=nall - len(kept), postcondition_failed=bool(r.postcondition_false),
                                         report=(missing or [''])[0][:120], ok=ok))
     if not ok:
         raise Inconclusive('coverage postcondition accepted a trace without any event of %s/%d' % (victim['fn'], victim['arity']))
